@@ -5,7 +5,9 @@ transcribed from the code AFTER the fixes
   F-16 (bounds check of RecvDeltas[recvDeltaIndex] → feedback ignored),
   F-15 (decoding stops at PacketStatusCount),
   F-17 (reported packets are deleted from history.packets; IsTWCC recorded),
-  F-18 (write lock; no sequential effect).
+  F-18 (write lock; no sequential effect),
+  F-40 (`acked`: buildReport reports nothing before the first packet has been acknowledged as
+        arrived; `cleanBefore` sets `cleanUntil = counter`, no `counter - 1` on uint64).
 Every Go index expression of the decoders is a checked access of the panic monad.
 Times are Z-time `Int`s; Go's saturating `Time.Sub` / wrapping `int64` are unbounded except
 for the one subtraction from `math.MaxInt64` in processFeedback, which wraps.
@@ -151,6 +153,7 @@ structure Hist where
   twcc : List (Nat × Nat) := []
   ss : List ((Nat × Nat) × Nat) := []
   packets : List (Nat × PR) := []
+  acked : Bool := false
   highestAcked : Nat := 0
   nextReport : Nat := 0
   cleanUntil : Nat := 0
@@ -171,6 +174,7 @@ def onFeedback (h : Hist) (ts : Int) (counter : Nat) (a : RAck) : Hist × Option
   | some p =>
     let p' := { p with arrived := a.arrived, arr := a.arrival, ecn := a.ecn }
     ({ h with packets := ainsert h.packets counter p'
+              acked := h.acked || a.arrived
               highestAcked := if a.arrived ∧ h.highestAcked < p.ctr then p.ctr else h.highestAcked },
      some (ts - p.dep))
 
@@ -204,9 +208,6 @@ def reportLoop : List Nat → Hist → List PR → Hist × List PR
       let h2 := if p.ctr ≥ h1.nextReport then { h1 with nextReport := p.ctr + 1 } else h1
       reportLoop is h2 (p :: acc)
 
-/-- `counter - 1` on `uint64` (wraps at 0). -/
-def pred64 (counter : Nat) : Nat := (counter + 18446744073709551616 - 1) % 18446744073709551616
-
 /-- body of the loop of `history.cleanBefore`. -/
 def cleanStep (h : Hist) (i : Nat) : Hist :=
   match alookup h.packets i with
@@ -216,11 +217,11 @@ def cleanStep (h : Hist) (i : Nat) : Hist :=
 /-- `history.cleanBefore`. -/
 def cleanBefore (h : Hist) (counter : Nat) : Hist :=
   let h' := (List.range' h.cleanUntil (counter - h.cleanUntil)).foldl cleanStep h
-  { h' with cleanUntil := pred64 counter }
+  { h' with cleanUntil := counter }
 
-/-- `history.buildReport`. -/
+/-- `history.buildReport` (`!h.acked || h.nextReport > h.highestAcked` → nil: F-40 fix). -/
 def buildReport (h : Hist) : Hist × List PR :=
-  if h.nextReport > h.highestAcked then (h, [])
+  if h.acked = false ∨ h.nextReport > h.highestAcked then (h, [])
   else
     let (h1, res) := reportLoop (List.range' h.nextReport (h.highestAcked + 1 - h.nextReport)) h []
     (cleanBefore h1 h1.nextReport, res)
@@ -230,6 +231,7 @@ def buildReport (h : Hist) : Hist × List PR :=
 inductive Pkt where
   | twcc (fb : Twcc)
   | ccfb (fb : Ccfb)
+  | other                -- any other rtcp.Packet (receiver report, PLI, …): no case of the type switch
 
 def maxInt64 : Int := 2 ^ 63 - 1
 def wrap64 (x : Int) : Int := (x + 2 ^ 63) % 2 ^ 64 - 2 ^ 63
@@ -261,6 +263,7 @@ def pktLoop (ts : Int) : List Pkt → Hist → Int → Int → Res (Hist × Int 
     -- min / max commute, so the order is unobservable
     let (h', sh') := perSsrc.foldl (fun (acc : Hist × Int) e => applyCcfbAcks ts e.1 e.2 acc.1 acc.2) (h, sh)
     pktLoop ts ps h' sh' ad'
+  | .other :: ps, h, sh, ad => pktLoop ts ps h sh ad
 
 /-- `processFeedback`: (history, rtt, reports). -/
 def processFeedback (h : Hist) (ts : Int) (pkts : List Pkt) : Res (Hist × Int × List PR) := do
